@@ -627,7 +627,35 @@ impl Oracle for SboOracle {
                     ));
                 }
             } else {
+                // either outcome is accepted (the SELECT was itself a copy, or the time-out falls on this very millisecond) -
+                // but whichever it is, it is all or nothing: "executed exactly once" or not at all, and what is echoed is
+                // what the handler said
                 verdict_class = 22;
+                let nobj = count_objects(&sent.bytes[2..]).unwrap_or(0);
+                if !operate_callbacks.is_empty() && operate_callbacks.len() != nobj {
+                    violation = Some(Violation::new(
+                        "C04/matching-operate-not-executed-once",
+                        if operate_callbacks.len() < nobj { "fewer either-outcome" } else { "more either-outcome" },
+                        format!(
+                            "step {}: OPERATE of {} objects caused {} operate callbacks",
+                            step.op_index,
+                            nobj,
+                            operate_callbacks.len()
+                        ),
+                    ));
+                } else if let (false, Some(resp)) = (operate_callbacks.is_empty(), sol_response) {
+                    let st = echoed_statuses(resp);
+                    if st != operate_callbacks {
+                        violation = Some(Violation::new(
+                            "C04/operate-echo-status-differs-from-handler",
+                            "either-outcome",
+                            format!(
+                                "step {}: handler answered {:?}, response echoes {:?}",
+                                step.op_index, operate_callbacks, st
+                            ),
+                        ));
+                    }
+                }
             }
         } else {
             verdict_class = 30 + (func as u64 % 7);
